@@ -470,6 +470,40 @@ def _thread_constant_flags(g):
             elif r0.get('k') == 'str' or (r0.get('k') == 'un' and r0.get('op') == '&') or \
                     (r0.get('k') == 'ref' and r0.get('dk') == 'local' and g.fn.unit.ty(r0.get('ty0', r0['ty']))['c'] == 'array'):
                 c = 1       # the address of an object is not NULL
+        if c is None and l.get('k') == 'ref':
+            # t = v where v is a local that the straight-line code leading here has just tested to be non-NULL
+            r0 = sc(e['r'])
+            if r0.get('k') == 'ref' and r0.get('dk') in ('local', 'param'):
+                x = a.id
+                for _hop in range(40):
+                    ps = g.pred[x]
+                    if len(ps) != 1:
+                        break
+                    (pid, lab) = ps[0]
+                    pn = g.nodes[pid]
+                    if pn.kind == 'branch' and lab is not None and pn.expr is not None:
+                        be0 = sc(pn.expr)
+                        nonnull = None
+                        if be0.get('k') == 'ref' and be0.get('d') == r0.get('d'):
+                            nonnull = (lab[0] == 'T')
+                        elif be0.get('k') == 'bin' and be0.get('op') in ('==', '!='):
+                            xx, yy = sc(be0['l']), sc(be0['r'])
+                            other = None
+                            if xx.get('k') == 'ref' and xx.get('d') == r0.get('d'):
+                                other = be0['r']
+                            elif yy.get('k') == 'ref' and yy.get('d') == r0.get('d'):
+                                other = be0['l']
+                            if other is not None and (other.get('null') or sc(other).get('null') or cv(other) == 0):
+                                nonnull = ((be0['op'] == '!=') == (lab[0] == 'T'))
+                        if nonnull:
+                            c = 1
+                        if nonnull is not None:
+                            break
+                    if pn.kind in ('stmt', 'decl') and pn.expr is not None:
+                        pe = pn.expr
+                        if pe.get('k') == 'bin' and pe.get('op') == '=' and sc(pe['l']).get('k') == 'ref' and sc(pe['l']).get('d') == r0.get('d'):
+                            break
+                    x = pid
         if l.get('k') != 'ref' or l.get('dk') != 'local' or c is None or len(g.succ[a.id]) != 1:
             continue
         cur = g.succ[a.id][0][0]
